@@ -140,8 +140,9 @@ CLAIMED['C07'] = dict(
         'rotation is an isometry about the origin, composes additively, is the identity at 0. Tied to calc.py/_geometry.py on every run by the translator (6 GenEq '
         'lemmas, by reflexivity) and by per-case `interval` lemmas |model - implementation| <= eps (quick ~250, thorough ~2500) plus a numeric law oracle.',
    note='Trusted: Coq kernel; Reals axioms (ClassicalDedekindReals.sig_forall_dec, sig_not_dec, functional_extensionality_dep, Classical_Prop.classic) and the '
-        'primitive int/float operations Interval uses; tools/translate.py + gen_sphere.py rewrites; harness. NOT proved: IEEE/libm error and the conversion of the '
-        '1e-7 deg rounding into the 2 cm figure (observed by the interval lemmas and the oracle); dist_xyz_meters and rotate_coordinates are tied by correspondence only; '
+        'primitive int/float operations Interval uses; tools/translate.py + gen_sphere.py rewrites; harness. The 2 cm clause is proved in METRES over the reals '
+        '(C07_dest_within_2cm: the rounded destination is within 0.02 m of the exact one; C07_small_displacement: |dlon|,|dlat| <= e <= 1 deg gives '
+        'distance <= 2*R*rad(e)). NOT proved: IEEE/libm error (bounded per case by the interval lemmas and the oracle); dist_xyz_meters and rotate_coordinates are tied by correspondence only; '
         'finding D34 (longitude exactly -180 cannot be un-wrapped).',
    technique='Coq real-analysis proofs (nsatz/ring/field identities, atan2 by cases) + translator tie + per-case interval-arithmetic correspondence',
    ref='5/C07, 9')
@@ -149,11 +150,11 @@ CLAIMED['C03'] = dict(
    text='PARTIAL. Machine-checked proofs that the analytic membership tests of circle / ellipse / ring / wedge are exactly their documented definitions (distance and '
         'bearing compared with the radius function, holes removed), that b <= radius_at <= a with the axis values, that EVERY generated boundary point lies exactly '
         'on the defined curve at the scheduled bearing for any k (from dest_dist / dest_bearing of C07), circle bearings strictly decrease along the list, ring/wedge bearings are strictly monotone in the index on both arcs, first = last, '
-        'list shapes for every k; the returned coordinate is within 5e-8 deg per axis of a point on the curve (2 cm figure: partial, degrees not metres). Tied to the '
+        'list shapes for every k; the returned coordinate is within 5e-8 deg per axis, and hence within 2 cm in METRES (haversine; proved: small-displacement bound 2*R*rad(e) via atan x <= x and |sin x| <= |x|), of a point exactly on the curve. Tied to the '
         'code by the translator (4 GenEq lemmas) and per-case `interval` lemmas for boundary coordinates and contains decisions plus a numeric oracle with an '
         'independent geodesic. The chord-error clause (polygon form vs analytic test) is NOT proved and is exercised on a fixed corpus only; findings D35 (polygon '
         'form across +-180) and D36 (wedge through north).',
-   note='Trusted: as C07 (Reals axioms, Interval primitives, translator, harness). Not proved: IEEE/libm error, 2 cm in metres, strict angular order for the ellipse (its bearings are known only modulo 360), chord error.',
+   note='Trusted: as C07 (Reals axioms, Interval primitives, translator, harness). Not proved: IEEE/libm error, strict angular order for the ellipse (its bearings are known only modulo 360), chord error.',
    technique='Coq real-analysis proofs on top of C07 + translator tie + per-case interval correspondence; fixed corpus for the chord clause',
    ref='5/C03, 9')
 CLAIMED['C11'] = dict(
